@@ -100,7 +100,15 @@ pub fn judge(x: [f64; 2], mut l: Option<&mut Local>) -> Verdict {
     Verdict::Pass
 }
 
-pub fn replay(_call: &str, _clause: &str, args: &[u64]) -> Verdict {
+/// history exploration: the judge of one call (all four functions are evaluated on the argument)
+pub fn hist_judge(c: &crate::hist::HCall, l: Option<&mut Local>) -> Verdict {
+    judge(c.a, l)
+}
+
+pub fn replay(call: &str, _clause: &str, args: &[u64]) -> Verdict {
+    if call == "hist" {
+        return crate::hist::replay(args, &hist_judge);
+    }
     judge([f64::from_bits(args[0]), f64::from_bits(args[1])], None)
 }
 
@@ -273,5 +281,11 @@ pub fn run(r: &mut Runner) {
                 rec.record(l, (1u64 << 56) + i as u64, v);
             }
         });
+    }
+    {
+        use crate::api::Op;
+        let bases: Vec<[f64; 2]> = vec![[1.5, 1e-17], [0.3, 0.0], [4.0, -1e-16], [2.5, 0.0], [100.5, 3e-15], [0.7853981633974483, 3.061616997868383e-17], [-7.0, 2e-16], [1e5, 1e-12]];
+        let groups = crate::hist::unary_groups(&[Op::sin, Op::cos], &bases, [0.9, 1e-18]);
+        crate::hist::explore(r, "histories: sin/cos/tan/sin_cos", &groups, 3, &hist_judge, 14u64 << 55);
     }
 }
